@@ -15,20 +15,34 @@ static size_t get_number_of_default_cores(bool use_process_mask) { return DC; }
 #endif
 
 /* ---- --pika:threads / pika.os_threads / ${PIKA_THREADS:cores} ---------------------------------------------------------
- * a thread-count string is the keyword "cores", the keyword "all" or a numeral */
+ * SPECIFICATION (written from the property, evaluated on the ghost sources): a thread-count string is the keyword
+ * "cores", the keyword "all" or a numeral; the level below the command line is the configuration map, else the runtime
+ * configuration entry (environment / default ini); the built-in default is one thread per PU of the mask ("all"). */
 #define KW_OK(t) ((t) == S_cores || (t) == S_all || TOK_NUM_OK(t))
 #define KW_VAL(t) ((t) == S_cores ? DC : (t) == S_all ? DT : TOK_NUM(t))
-/* the level below the command line: configuration map, else the runtime configuration entry (environment / default ini) */
-#define LOW_HAS (CFG_USABLE_STR(cfgmap->os_threads) || rtcfg->os_threads.present)
-#define LOW_TOK (CFG_USABLE_STR(cfgmap->os_threads) ? cfgmap->os_threads.val : rtcfg->os_threads.val)
-/* the value that wins: command line, else lower level, else the built-in default (one thread per PU of the mask) */
-#define NT_WIN_OK (vm->threads.present ? KW_OK(vm->threads.sval) : (!LOW_HAS || KW_OK(LOW_TOK)))
-#define NT_THREADS (vm->threads.present ? KW_VAL(vm->threads.sval) : LOW_HAS ? KW_VAL(LOW_TOK) : DT)
-#define NT_MIN (CFG_USABLE_NUM(cfgmap->force_min_os_threads) ? TOK_NUM(cfgmap->force_min_os_threads.val) : NT_THREADS)
-#define NT_WIN_SUPPLIED (vm->threads.present || LOW_HAS)
-#define NT_WIN_TOK (vm->threads.present ? vm->threads.sval : LOW_TOK)
-/* some value that was supplied is not a thread count at all */
-#define NT_BAD_SOURCE ((vm->threads.present && !KW_OK(vm->threads.sval)) || (LOW_HAS && !KW_OK(LOW_TOK)))
+struct nt_spec {
+  bool bad_source;     /* some value that was supplied is not a thread count at all */
+  bool win_ok;         /* the value that wins is a thread count */
+  bool win_supplied;   /* the value that wins was supplied (command line, configuration map, runtime configuration) */
+  bool win_is_numeral; /* ... and is a numeral (not a keyword) */
+  size_t threads;      /* the value that wins: command line, else lower level, else the built-in default */
+  size_t min;          /* pika.force_min_os_threads of the configuration map, else `threads` */
+};
+static struct nt_spec nt_spec(const struct cfgmap *cfgmap, const struct rtcfg *rtcfg, const struct vmap *vm, bool use_process_mask)
+{
+  struct nt_spec s;
+  bool low_has = CFG_USABLE_STR(cfgmap->os_threads) || rtcfg->os_threads.present;
+  str_t low_tok = CFG_USABLE_STR(cfgmap->os_threads) ? cfgmap->os_threads.val : rtcfg->os_threads.val;
+  str_t win_tok = vm->threads.present ? vm->threads.sval : low_tok;
+  s.win_supplied = vm->threads.present || low_has;
+  s.bad_source = (vm->threads.present && !KW_OK(vm->threads.sval)) || (low_has && !KW_OK(low_tok));
+  s.win_ok = !s.win_supplied || KW_OK(win_tok);
+  s.win_is_numeral = s.win_supplied && TOK_NUM_OK(win_tok);
+  s.threads = s.win_supplied ? KW_VAL(win_tok) : DT;
+  s.min = CFG_USABLE_NUM(cfgmap->force_min_os_threads) ? TOK_NUM(cfgmap->force_min_os_threads.val) : s.threads;
+  return s;
+}
+#define NT nt_spec(cfgmap, rtcfg, vm, use_process_mask)
 #define NT_FRAME vx_exc, g_exc_kind, g_throws, g_fresh_used, __CPROVER_object_whole(g_num_ok), __CPROVER_object_whole(g_num)
 
 #ifdef U_NUM_THREADS
@@ -36,15 +50,15 @@ static size_t get_number_of_default_cores(bool use_process_mask) { return DC; }
 size_t handle_num_threads(struct cfgmap *cfgmap, const struct rtcfg *rtcfg, struct vmap *vm, bool use_process_mask)
 __CPROVER_requires(!vx_exc && g_fresh_used == 0)
 /* precedence; pika.force_min_os_threads is a lower bound on the result */
-__CPROVER_ensures(!vx_exc ==> __CPROVER_return_value == MAXZ(NT_THREADS, NT_MIN))
+__CPROVER_ensures(!vx_exc ==> __CPROVER_return_value == MAXZ(NT.threads, NT.min))
 /* an invalid count is never used */
 __CPROVER_ensures(!vx_exc ==> __CPROVER_return_value >= 1)
 /* invalid values stop start-up: a winning value that is no thread count, --pika:threads=0, force_min_os_threads == 0 */
-__CPROVER_ensures(!NT_WIN_OK ==> vx_exc)
-__CPROVER_ensures((vm->threads.present && KW_OK(vm->threads.sval) && KW_VAL(vm->threads.sval) == 0) ==> vx_exc)
-__CPROVER_ensures((!NT_BAD_SOURCE && NT_MIN == 0) ==> vx_exc)
+__CPROVER_ensures(!NT.win_ok ==> vx_exc)
+__CPROVER_ensures((vm->threads.present && !NT.bad_source && NT.threads == 0) ==> vx_exc)
+__CPROVER_ensures((!NT.bad_source && NT.min == 0) ==> vx_exc)
 /* no spurious start-up failure: an exception means that a supplied value is no count, or the resolved count or bound is 0 */
-__CPROVER_ensures(vx_exc ==> (NT_BAD_SOURCE || NT_THREADS == 0 || NT_MIN == 0))
+__CPROVER_ensures(vx_exc ==> (NT.bad_source || NT.threads == 0 || NT.min == 0))
 __CPROVER_assigns(NT_FRAME)
 //@LIFT body
 #endif
@@ -55,7 +69,7 @@ size_t handle_num_threads(struct cfgmap *cfgmap, const struct rtcfg *rtcfg, stru
 __CPROVER_requires(!vx_exc && g_fresh_used == 0)
 /* "Invalid values ... stop start-up with an error rather than being ignored": a supplied thread count of 0 is invalid
  * whatever its source (command line, configuration map, environment) */
-__CPROVER_ensures((!NT_BAD_SOURCE && NT_WIN_SUPPLIED && TOK_NUM_OK(NT_WIN_TOK) && TOK_NUM(NT_WIN_TOK) == 0) ==> vx_exc)
+__CPROVER_ensures((!NT.bad_source && NT.win_is_numeral && NT.threads == 0) ==> vx_exc)
 __CPROVER_assigns(NT_FRAME)
 //@LIFT body
 #endif
